@@ -15,6 +15,22 @@ import z3
 from . import core
 
 
+ABS_FORK = [False]      # abs() forks on the sign instead of building an if-then-else term
+
+
+class abs_forking:
+    def __init__(self, on=True):
+        self.on = on
+
+    def __enter__(self):
+        self.old = ABS_FORK[0]
+        ABS_FORK[0] = self.on
+
+    def __exit__(self, *a):
+        ABS_FORK[0] = self.old
+        return False
+
+
 class DomainError(ArithmeticError):
     """Raised where NumPy would produce inf/nan (division by zero, sqrt/log of a negative
     number, arcsin beyond 1).  It is an ordinary Exception: harnesses treat it as a
@@ -180,6 +196,8 @@ class Sym:
 
     def __abs__(self):
         t = _num(self.t)
+        if ABS_FORK[0]:
+            return Sym(t) if core.branch(t >= 0) else Sym(-t)
         return Sym(z3.If(t >= 0, t, -t))
 
     @staticmethod
